@@ -96,6 +96,12 @@ T_C04_SkipsOnlyUnavailable == (Observed /\ ~everFaulted) =>
 \* last looked (DL[k][9], measured at the turn yield point) - or to the worker in turn when no bit was set at all.  Holds
 \* with faults too: a re-routed connection goes through the rotation again
 T_C04_SendOnlyToMarked == Observed => \A k \in 1..Len(DL) : (Len(DL[k]) >= 9 => DL[k][9])
+\* AcceptDispatch.C04_BitsTrueWhenCalm on the measured state: at a settled record (the real poll would block, nothing
+\* queued for the accept thread) every live worker in the rotation whose MEASURED load is below its limit is marked
+\* available - the rotation skips only workers that really are at their limit (holds with faults and commands)
+T_C04_BitsTrueWhenCalm ==
+  (Observed /\ obs.ev = "step" /\ obs.q /\ running /\ St.wq = <<>> /\ St.cmdq = <<>>) =>
+     \A i \in Workers : (InHandles(i) /\ alive[i] /\ Load(i) < Limit /\ counter[i] <= Limit) => avail[i]
 T_C04_SaturatedGetsNothing == Observed =>
   /\ C02_Bound
   /\ ~everFaulted => \A k \in 1..Len(DL) : DL[k][4] <= Limit
